@@ -42,7 +42,7 @@ pub fn command(t: &TestSpec, log: &str) -> String {
     if t.sleep_ms > 0 {
         c.push_str(&format!("; sleep {}.{:03}; echo {}-late >> {}", t.sleep_ms / 1000, t.sleep_ms % 1000, t.id, log));
     }
-    c.push_str(&format!("; echo out-{}", t.id));
+    c.push_str(&format!("; echo out-{}{}", t.id, "x".repeat(t.pad as usize)));
     if t.hard_exit {
         c.push_str(&format!("; exit {}", t.exit));
     } else if t.exit != 0 {
@@ -53,7 +53,7 @@ pub fn command(t: &TestSpec, log: &str) -> String {
 
 fn expectation(t: &TestSpec) -> String {
     if t.output_ok {
-        format!("out-{}", t.id)
+        format!("out-{}{}", t.id, "x".repeat(t.pad as usize))
     } else {
         format!("other-{}", t.id)
     }
@@ -97,10 +97,10 @@ pub fn render_markdown(doc: &DocSpec, log: &str) -> Vec<u8> {
         s.push_str("---\n\n");
     }
     s.push_str(&format!("# Document {}\n\n", doc.name));
-    if doc.tests.is_empty() {
+    if (doc.tests.is_empty() && doc.filler == 0) {
         s.push_str("This document has no test cases of its own.\n");
     }
-    for t in &doc.tests {
+    for t in &doc.all_tests() {
         s.push_str(&format!("## {}\n\n", t.id));
         let mut cfg = vec![];
         if let Some(c) = t.skip_code {
@@ -138,10 +138,10 @@ pub fn render_markdown(doc: &DocSpec, log: &str) -> Vec<u8> {
 
 pub fn render_cram(doc: &DocSpec, log: &str) -> Vec<u8> {
     let mut s = String::new();
-    if doc.tests.is_empty() {
+    if (doc.tests.is_empty() && doc.filler == 0) {
         s.push_str("This document has no test cases of its own\n");
     }
-    for t in &doc.tests {
+    for t in &doc.all_tests() {
         s.push_str(&format!("{}\n", t.id));
         s.push_str(&format!("  $ {}\n", command(t, log)));
         s.push_str(&format!("  {}\n", expectation(t)));
@@ -171,7 +171,16 @@ pub fn sample_run(run: &RunSpec) -> Value {
         let text = if d.defect == Defect::Missing {
             "<not written>".to_string()
         } else {
-            String::from_utf8_lossy(&render(d, "$LOG")).to_string()
+            {
+                // (filler test cases are summarised)
+                let mut listed = d.clone();
+                listed.filler = d.filler.min(2);
+                let mut text = String::from_utf8_lossy(&render(&listed, "$LOG")).to_string();
+                if d.filler > 2 {
+                    text.push_str(&format!("... and {} more passing test cases like the last one ({} bytes in all)\n", d.filler - 2, render(d, "$LOG").len()));
+                }
+                text
+            }
         };
         files.insert(d.name.clone(), Value::String(text));
     }
@@ -746,6 +755,9 @@ pub fn describe_doc(d: &DocModel) -> String {
             format!("{}{}:{}", t.id, if t.run == Run::May { "?" } else { "" }, if t.max == 0 { "none".to_string() } else if cls.is_empty() { "any".into() } else { cls.join("|") })
         })
         .collect();
+    if tests.len() > 12 {
+        return format!("{}[{}: {} ... ({} test cases)]", d.name, d.end.name(), tests[..4].join(" "), tests.len());
+    }
     format!("{}[{}: {}]", d.name, d.end.name(), tests.join(" "))
 }
 
@@ -805,6 +817,19 @@ pub fn shrink_run(run: &RunSpec) -> Vec<RunSpec> {
             // a directory argument without documents left
             r.args.retain(|a| r.docs.iter().any(|d| &d.name == a || d.name.starts_with(&format!("{a}/"))));
             out.push(r);
+        }
+    }
+    // fewer filler test cases
+    for i in 0..run.docs.len() {
+        let f = run.docs[i].filler;
+        if f > 0 {
+            for nf in [0, f / 2, f * 3 / 4, f * 9 / 10, f.saturating_sub(10), f - 1] {
+                if nf < f {
+                    let mut r = run.clone();
+                    r.docs[i].filler = nf;
+                    out.push(r);
+                }
+            }
         }
     }
     // drop includes
